@@ -18,7 +18,10 @@ EXTENDS Integers, Sequences, FiniteSets, TLC, Json
 
 CONSTANTS Cross,       \* P and S subscribed to each other (cross-blocked pairs)
           SelfSub,     \* P is subscribed to its own topic (its own outgoing ring fills when it stops reading)
-          WithAttacker, MaxSteps
+          WithAttacker, MaxSteps,
+          WillKind     \* "none" | "small" | "big": P and S connect with a will on a topic the witness subscriber holds;
+                       \* "big": larger than a ring (it arrives in the CONNECT, not through the ring), so it can be
+                       \* delivered to nobody - the connection must be torn down all the same and nobody else may suffer
 
 Clients == {"P", "S"} \cup (IF WithAttacker THEN {"A"} ELSE {})
 VARIABLES st,          \* client -> "new" | "up" | "gone"
@@ -35,8 +38,12 @@ FreeOf(s, rd) == \A c \in Clients : s[c] = "up" => rd[c]
 Free(s) == FreeOf(s, reading)
 \* gone is only predicted when the proviso holds before the step: a packet of a connection whose
 \* processor is parked on somebody's full ring is not even looked at
+\* will: what this step means for the will of connection c: "due" it ended without DISCONNECT (the will is published once
+\* the teardown is complete), "never" it ended with DISCONNECT (its will is never published), "-" nothing
+WillOf(a) == IF WillKind = "none" THEN "-" ELSE IF a \in {"cut", "bad", "over"} THEN "due" ELSE IF a = "disconnect" THEN "never" ELSE "-"
 Log(a, c, gone) == /\ steps' = steps + 1
-                   /\ hist' = Append(hist, [a |-> a, c |-> c, gone |-> (gone /\ Free(st)), free |-> FreeOf(st', reading'), cross |-> Cross, selfsub |-> SelfSub])
+                   /\ hist' = Append(hist, [a |-> a, c |-> c, gone |-> (gone /\ Free(st)), free |-> FreeOf(st', reading'), cross |-> Cross, selfsub |-> SelfSub,
+                                             wk |-> WillKind, will |-> WillOf(a)])
 
 \* a burst of big QoS 0 publishes (more than the subscriber's ring holds)
 Burst(c) == /\ c \in {"P", "S"} /\ st[c] = "up" /\ (c = "S" => Cross) /\ ~closedSrv
@@ -69,7 +76,8 @@ Resume(c) == /\ c \in {"P", "S"} /\ st[c] = "up" /\ ~reading[c] /\ ~closedSrv
              /\ st' = IF pending[c] # "none" THEN [st EXCEPT ![c] = "gone"] ELSE st
              /\ UNCHANGED <<pending, closedSrv>>
              /\ steps' = steps + 1
-             /\ hist' = Append(hist, [a |-> "resume", c |-> c, gone |-> pending[c] # "none", free |-> FreeOf(st', reading'), cross |-> Cross, selfsub |-> SelfSub])
+             /\ hist' = Append(hist, [a |-> "resume", c |-> c, gone |-> pending[c] # "none", free |-> FreeOf(st', reading'), cross |-> Cross, selfsub |-> SelfSub,
+                                       wk |-> WillKind, will |-> IF WillKind = "none" THEN "-" ELSE IF pending[c] = "bad" THEN "due" ELSE IF pending[c] = "disconnect" THEN "never" ELSE "-"])
 
 AttackKinds == {"pre-garbage", "pre-truncated-connect", "pre-cut-in-header", "pre-cut-in-body", "pre-huge-remlen",
                 "post-truncated-publish", "post-garbage", "post-huge-remlen", "post-cut-mid-packet", "post-bad-flags",
